@@ -384,7 +384,8 @@ PROPS["C18"] = {
                  "shape": {"spec": "MC_Api", "cfg": "Shape_Api.cfg", "params": "mini211", "num": (6, 60), "depth": 60, "procs": 16}}],
     "require_classes": {"quick": ["alias_recv", "alias_args", "alias_all", "kind_panic", "kind_err", "kind_ok", "uninit_operand", "decode_fail_valid_recv",
                                   "decode_fail_uninit_recv", "decode_ok", "key_ctor_ok", "key_ctor_err", "mutate_with_key", "mutate_buf_with_key",
-                                  "mutate_scalar_with_key", "mutate_point_with_key", "msm", "msm_mismatch", "scalar_decode_err", "reply", "reset"]},
+                                  "mutate_scalar_with_key", "mutate_point_with_key", "msm", "msm_mismatch", "scalar_decode_err", "reply", "reset",
+                                  "schnorr_ctor_ok", "schnorr_ctor_err", "mutate_with_schnorr_key", "recover_call", "coords_call"]},
     "assumptions": ["histories are sampled by TLC's simulator from the exhaustive call set (all alias patterns are enumerated; sequences are random); the depth-bounded "
                     "exhaustive exploration is on the miniature curve",
                     "Schnorr key objects, signing and hash-to-curve are not part of the pool model (covered functionally by C13-C15)"],
